@@ -1,4 +1,4 @@
 From Coq Require Extraction ExtrOcamlBasic.
-From NQ Require Import Local.DotQmail.
+From NQ Require Import Local.DotQmail Local.Owner.
 Extraction Language OCaml.
-Extraction "extracted_C13.ml" candidates local_run local_plan dtline rpline ufline looping safeext.
+Extraction "extracted_C13.ml" candidates local_run local_plan dtline rpline ufline looping safeext forward_sender owner_file s_owner s_owner_default.
